@@ -69,10 +69,10 @@ theorem decInto_fresh (f : Fmt) : ∀ bs, decInto f .unit bs = dec f bs := by
     intro bs
     simp only [decInto, decG, optInner, asOpt, ite_self, ih]
     cases kp <;> (repeat' split) <;> simp_all
-  | tailIf a p b iha ihb =>
+  | tailIf kp a p b iha ihb =>
     intro bs
     simp only [decInto, decG, fstR, sndR, asOpt, iha, ihb]
-    (repeat' split) <;> simp_all
+    cases kp <;> (repeat' split) <;> simp_all
 
 /-- **recv_indep (clean formats)**: without sticky flags, kept optionals, maps and
     conditional suffixes the decoded value does not depend on the receiver. -/
@@ -113,7 +113,13 @@ theorem decInto_clean (f : Fmt) : Clean f → ∀ r bs, decInto f r bs = dec f b
     subst hk
     simp only [decInto, decG, ih hf]
     (repeat' split) <;> simp_all
-  | tailIf a p b iha ihb => intro hc; simp [Clean] at hc
+  | tailIf kp a p b iha ihb =>
+    intro hc r bs
+    simp only [Clean] at hc
+    obtain ⟨hk, ha, hb⟩ := hc
+    subst hk
+    simp only [decInto, decG, iha ha, ihb hb]
+    (repeat' split) <;> simp_all
 
 /-! The clean lattigo types. -/
 
